@@ -26,6 +26,9 @@ type Req struct {
 	Vec       Vec  `json:"vec"`
 	MissingQ  bool `json:"missing_q,omitempty"`  // required query parameter absent
 	BadCT     bool `json:"bad_ct,omitempty"`     // Content-Type not admitted by the operation
+	// BadCTText: the header value sent when BadCT is set ("" for the default "text/weird"): a type the operation does
+	// not admit, or text that is no media type at all
+	BadCTText string `json:"bad_ct_text,omitempty"`
 	BadAccept bool `json:"bad_accept,omitempty"` // Accept the operation cannot satisfy
 	BadBody   bool `json:"bad_body,omitempty"`   // body the consumer cannot parse
 	// Extra: request headers that have nothing to do with the security schemes of the API (a CORS preflight marker,
@@ -291,7 +294,11 @@ func (r *stackRig) request(q Req) *http.Request {
 	}
 	req := httptest.NewRequest(strings.ToUpper(r.c.Method), target, strings.NewReader(body))
 	if q.BadCT {
-		req.Header.Set("Content-Type", "text/weird")
+		ct := q.BadCTText
+		if ct == "" {
+			ct = "text/weird"
+		}
+		req.Header.Set("Content-Type", ct)
 	} else {
 		req.Header.Set("Content-Type", "application/json")
 	}
